@@ -378,6 +378,24 @@ def r4_graph_complete(c, facts):
             c.bad(R, 'connect-conditional-on:%s' % ','.join(sorted(extra)), 'define_variable adds the dependency edge only under a condition on %s: uses for which it is false add no edge, so a cycle through them is never detected (accepted alias cycles, or an evaluation that never ends)' % sorted(extra))
         else:
             c.ok(R, {'define_variable': 'connects the current definition to every external definition it uses'})
+    # a node of the definition graph stands for one definition = (module, node): the builder's index is keyed by the
+    # whole External (arena indices of two modules overlap)
+    bi = c.anchor(R, 'oal_compiler::resolve::Builder::insert')
+    keyed = []
+    for b, t in bi.calls():
+        info = callee_of(t)
+        if not info:
+            continue
+        nm = P.strip(info['def']).split('::')[-1]
+        st = (info.get('self_ty') or '') + (t['args'][0].get('ty', '') if t['args'] else '')
+        if nm in ('entry', 'get', 'get_mut', 'contains_key', 'insert') and 'Map' in st and len(t['args']) > 1:
+            keyed.append(t['args'][1].get('ty', ''))
+    c.floor(R, 'lookups in the graph builder index', len(keyed), 1)
+    part = [k for k in keyed if 'definition::External' not in k]
+    if part:
+        c.bad(R, 'graph-node-key-partial', 'resolve::Builder::insert identifies a definition by %s instead of the whole External (module and node): declarations of two modules with the same arena index share one graph node, and a cycle is attributed to the wrong one' % sorted(set(part)))
+    elif keyed:
+        c.ok(R, {'Builder::insert': 'graph nodes are keyed by External (locator and index)'})
     co = c.anchor(R, 'oal_compiler::resolve::Builder::connect')
     if P.call_blocks(co, 'add_edge'):
         c.ok(R, {'Builder::connect': 'adds the edge current -> used'})
@@ -414,6 +432,9 @@ def r5_recursion_is_schema(c, facts):
 
 def run(c, facts):
     import c03
+    import c08 as _c08
+    R7 = c.rule('C09.R7', 'INNERMOST: the binder of a `rec` shadows a declaration of the same name, so the uses inside it are recursion points and not references to something else (shared with C08.R1)')
+    c.shared(R7, _c08.r1_innermost, 'C08.R1', facts)
     R6 = c.rule('C09.R6', 'COMPONENT-HELD: the component a recursion point refers to is registered under the name the $ref uses (shared with C03.R1)')
     c.shared(R6, c03.r1_ref_close, 'C03.R1', facts)
     c.run(r5_recursion_is_schema, facts)
